@@ -49,6 +49,12 @@ def streams(rng, cfg):
     out.append(("huge-chunk-with-extension", [head + te + b"7fffffff;a=b\r\n"] + [b"d" * 50] * 50))
     out.append(("huge-chunk-with-empty-extension", [head + te + b"7fffffff;\r\n"] + [b"d" * 50] * 50))
     out.append(("huge-chunk-after-small-ones", [head + te + b"1\r\nz\r\n1;x\r\nz\r\n7ffffff0 ; q\r\n"] + [b"d" * 50] * 50))
+    # the configured limits still hold for later requests of the connection (after the receiver has been cleared)
+    first = b"GET / HTTP/1.1\r\nHost: h\r\nContent-Length: 0\r\n\r\n"
+    if cfg.maxchunk < 0xf0000:
+        out.append(("second-request-huge-chunk", [first, head + te + b"f0000\r\n"] + [b"d" * 4096] * 240))
+        out.append(("third-request-huge-chunk", [first, first + head + te + b"f0000;x\r\n"] + [b"d" * 4096] * 240))
+    out.append(("second-request-endless-line", [first, head] + [b"b: " + b"c" * 60] + [b"c" * 64] * n))
     out.append(("endless-cr", [head] + [b"\r"] * n))
     out.append(("body-over-content-length-pipelined", [head + b"Content-Length: 3\r\n\r\nabc"] + [b"GET / HTTP/1.1\r\nHost: h\r\nContent-Length: 0\r\n\r\n"] * 200))
     return out
